@@ -40,6 +40,7 @@ def run(repo, chk):
         rule_b(chk, c, cname)
         rule_c_d(chk, c, cname)
     rule_select(repo, chk)
+    rule_preen(repo, chk)
     rule_e(chk, base)
 
 
@@ -256,6 +257,27 @@ def rule_select(repo, chk):
             q = pat.guarded_by(g, n, pat.test_edge(lambda tt, pol: pol == 'T' and src(tt) == f'self.{meth}({sv})'))
             chk.ob('d', f.ref, f'{name} is fired only for descriptors that are still registered for it', q is None, loc(f, c2),
                    path=pat.path_lines(q) if q else None, discr=f'interest:{name}')
+
+
+def rule_preen(repo, chk):
+    chk.rule('C10.f', 'Select prunes dead descriptors from both interest lists (a dead write-only descriptor would make every later select() fail)')
+    f = repo.func(POLLERS, 'Select._preenDescriptors')
+    chk.touch(f)
+    cover = set()
+    for n in walk_no_defs(f.node):
+        if isinstance(n, ast.For):
+            for w in ast.walk(n.iter):
+                if isinstance(w, ast.Attribute) and src(w) in ('self._read', 'self._write'):
+                    cover.add(src(w))
+    chk.ob('f', f.ref, 'the probe covers the read and the write interest list', cover == {'self._read', 'self._write'}, loc(f, f.node), detail=f'covers {sorted(cover)}',
+           discr='preen-both-lists')
+    g = f.cfg()
+    disc = [n for n in g.nodes if n.kind == 'stmt' and any(r == 'self' for r, _c in pat.method_calls(n.ast, 'discard'))]
+    ok = bool(disc) and all(any(k == 'except' for k, _a in n.ctx) for n in disc)
+    chk.ob('f', f.ref, 'a descriptor whose probe fails is discarded', ok, loc(f, f.node), discr='preen-discards')
+    ge = repo.func(POLLERS, 'Select._generate_events')
+    calls = [c for r, c in pat.method_calls(ge.node, '_preenDescriptors') if r == 'self']
+    chk.ob('f', ge.ref, 'select() failures caused by bad descriptors lead to pruning', len(calls) >= 2, loc(ge, ge.node), discr='preen-called', nontrivial=False)
 
 
 def rule_e(chk, base):
